@@ -67,7 +67,7 @@ func tkey(abs bool, classes []string, fam int) string {
 func BuildTable(scs []Scn) Table {
 	t := Table{}
 	for _, s := range scs {
-		if s.Role == "client" && s.Fault == "none" && !s.Huge {
+		if s.Role == "client" && s.Fault == "none" && !s.Huge && s.Remover != "nobody" {
 			t[tkey(s.Abs, s.Path, s.Fam)] = s
 		}
 	}
